@@ -269,15 +269,15 @@ func (a *Action) Decode() (proto.Message, error) {
 }
 
 type Outcome struct {
-	OK       bool
-	Err      string
-	Panicked bool
-	PanicVal string
-	Stack    string
-	Resp     proto.Message
-	Events   sdk.Events // only when OK
-	Deps     []DepCall
-	Writes   []StoreOp // raw writes issued by the handler (even if later discarded)
+	OK        bool
+	Err       string
+	Panicked  bool
+	PanicVal  string
+	Stack     string
+	Resp      proto.Message
+	Events    sdk.Events // only when OK
+	Deps      []DepCall
+	Writes    []StoreOp // raw writes issued by the handler (even if later discarded)
 	DecodeErr bool
 }
 
@@ -326,8 +326,20 @@ func (w *World) CallHandler(ctx sdk.Context, typ string, msg proto.Message) (res
 	return
 }
 
+// AdvanceType is a pseudo-transaction of the harness: the chain advances by a
+// million blocks and ten years (nothing else happens).
+const AdvanceType = "verif.AdvanceBlocks"
+
+func AdvanceAction() Action {
+	return Action{Type: AdvanceType, Desc: "advance 1,000,000 blocks / 10 years"}
+}
+
 // Apply executes one transaction on the world: branch, run, commit iff success.
 func (w *World) Apply(a Action) Outcome {
+	if a.Type == AdvanceType {
+		w.AdvanceBlocks(1_000_000, 10*365*24*3600)
+		return Outcome{OK: true}
+	}
 	msg, derr := a.Decode()
 	if derr != nil {
 		return Outcome{Err: "decode: " + derr.Error(), DecodeErr: true}
